@@ -280,6 +280,30 @@ props["C18"]["manifest"] = {
     "technique": "failing-input search (generated programs, accepted fixture mutants, probes) with panic / internal-error oracle + Lean validator with soundness theorems + independent structural checks of the assembly arena",
 }
 
+props["C17"] = {
+    "harness": "c17",
+    "level": "other",
+    "needs_cajun": True,
+    "nontrivial": r"^# c17 (sched|lsp|resolved|alloc) ",
+    "extra_eval_counters": ["jobs", "alloc_identifiers_issued", "lsp_publications_for_the_root"],
+    "timeout": {"quick": 1500, "thorough": 10800},
+    "rule": "(sched) 4,000 (quick) / 96,000 (thorough) schedules of one CompilerSession with an owner thread and k = 2/4/8/16 worker threads over six interdependent files (two roots, one of them sometimes opening the whole Builtin prelude so that a check takes tens of milliseconds; imports a, b, c; a companion signature): every round the owner hands 1..2k snapshots to the workers, waits a random 0-40,000 microseconds and installs an edit (set_overlay, the same overlay again, clear_overlay, disk write or removal + refresh_disk, a disk write the session is not told about under an overlay, LRU eviction, reverting to an earlier text). Workers do on a snapshot what the language server does (graph, analyze, optionally materialize_arena / reports / coverage / per-term facts, one or two roots, once or twice), catch the unwind, drop the snapshot first and only then report; allocator threads race beside them. Every completed analysis (sources with per-version text and offsets, outcome, every report with file, span and message, counts) must equal the answer of a fresh session over a fresh directory holding exactly the contents recorded for the snapshot's round; a result explained by no state of the schedule is `mixed-revisions`, by an earlier one `stale-*`. Also: two passes over one snapshot agree, all snapshots of one revision agree, no panic other than salsa::Cancelled, no writer blocked for 120 s (the guard prints owner, workers and live handles), and a result accepted by the replayed commit rule belongs to the document text current at the commit. Three quarters of the schedules register every file with the owner first (warm), one quarter let the snapshots discover files as the server does (cold). (alloc) 48 / 400 rounds of 2-16 threads racing IdAllocator::new / ArenaDense::new and alloc: key spaces non-zero and pairwise distinct in a process-wide ledger (also against the key spaces found inside analysis results), raw slots sequential, CompactKeySpaceId and ArenaIdIdentity round trips. (resolved) check_resolved on 2-16 snapshots of one session, each with its own program. (lsp) the real cajun binary, rebuilt from the tree, over stdio: 48 / 900 generated scripts of didOpen / didChange / didSave / hover on a slow root, the file it imports and an unrelated document with 0-250 ms between messages; every publishDiagnostics for the root must be the answer a fresh server gives for a root text at or after the labelled version with a text the imported file has had so far (18 truths, one fresh server each); scripts whose messages never overlap must end on exactly the truth of the final texts; shutdown must be answered.",
+    "explanation": "Kernel-checked (ZV/Props/C17.lean, invariants over ALL reachable states of three transition systems, no bounded search): (1) KeySpaceId::fresh modelled at the granularity of fetch_update's load / compare-exchange (incl. spurious failure) for any number of threads: the identities returned are pairwise distinct, non-zero, exactly 1..counter, and at u64::MAX nothing more is issued (keyspace_unique, keyspace_exhaustion); allocators on top of it issue pairwise distinct (key space, raw) pairs (id_injective); the compact split/expand is the identity (compact_roundtrip). (2) The snapshot protocol (revisioned inputs, frozen snapshots, tasks that complete against their own snapshot or are cancelled, writes, the editor's commit rule with the revision read before the snapshot): a completed task holds the analysis of exactly one revision (snapshot_isolation); a committed result is the analysis of one revision in which an open document has its current text, and would be fully current had the rule compared session revisions (commit_consistent; a Demo shows the document-only rule committing a result older than a dependency). (3) The path-to-input registry with memoised analyses validated against the inputs they read: exact when every handle shares one registry (registry_shared_consistent), NOT exact when snapshot() copies it, as the code does (registry_copied_stale: a reachable state with a wrong answer). None of this says the Rust code refines the models; that is what the schedules and the server scripts test. Defects found on the pinned tree are listed in known-findings.json.",
+    "trusted_base": [KERNEL, AXIOMS, HARNESS,
+                     "modelled, not verified: KeySpaceId::fresh / IdAllocator::alloc / CompactKeySpaceId (lang/utils/src/arena.rs) as the transition system Ks / Sys; CompilerSession::snapshot + set_overlay + the editor's refresh / commit_analysis (session query.rs, cajun lib.rs) as Proto; files: DashMap + memo validation as Reg",
+                     "NOT modelled: the operating system's scheduler, salsa's storage (cancellation flag, waiting for handles, memo verification, LRU), dashmap, memory ordering (one atomic location), tokio / tower-lsp; the checker itself (`analyze` is a parameter)",
+                     "the sequential oracle trusts a fresh single-threaded CompilerSession (and, for lsp, a fresh cajun process) on the same contents",
+                     "schedules are sampled, not enumerated: the interleavings explored are those the OS produces under 2-3x oversubscription"],
+    "assumptions": ["a writer blocked for 120 s is reported as a deadlock",
+                    "in cold schedules no snapshot is alive while the harness changes a file on disk (the owner cancels and waits first): what a lazily loading snapshot would read from a changing disk is outside the property"],
+}
+props["C17"]["manifest"] = {
+    "text": "Partial by nature: isolation of concurrent analyses is a property of running threads. Decisive evidence is a randomised stress of one session (owner installing edits, 2-16 workers analysing snapshots the way the language server does, allocator threads beside them) in which every completed analysis is compared with a fresh sequential session on exactly the contents its snapshot saw, with a wall-clock guard for deadlock, plus generated scripts against the real cajun binary whose every publication must be the sequential answer for one revision. Kernel-checked: uniqueness of key spaces and identifiers under every interleaving of the compare-exchange loop, snapshot isolation and consistency of the editor's commit rule for every history of the protocol, and exactness of memoised analyses when the input registry is shared - together with a counterexample for the registry copied per snapshot, which is what the code does. Defects found on the pinned tree (stale analyses after a snapshot registered an import, cancelled analyses published as `no diagnostics` or as task failures, check_resolved answering for an earlier program, refresh_disk failing for files first seen missing) are known findings.",
+    "note": "Level `other`: the theorems are about models, the search explores schedules, it does not prove. Not modelled: OS scheduling, salsa / dashmap internals, memory ordering.",
+    "technique": "randomised multi-threaded stress with an exact sequential oracle and deadlock guard + protocol-level scripts against the real language server + Lean transition systems with invariants over all interleavings (allocator, snapshot protocol, input registry)",
+}
+
+
 props["C16"] = {
     "harness": "c16",
     "level": "other",
